@@ -13,6 +13,7 @@ var Checks = map[string]func(*Env) int{
 	"C09": CheckC09,
 	"C10": CheckC10,
 	"C14": CheckC14,
+	"C15": CheckC15,
 	"C16": CheckC16,
 	"C17": CheckC17,
 	"C18": CheckC18,
